@@ -1,7 +1,7 @@
 (** C18 - lemmas about the model of `cij run-static` (StaticModel.v) at the instance R. *)
 From Coq Require Import Reals ZArith List Bool Lia Lra Psatz.
 From Coquelicot Require Import Coquelicot.
-From Interval Require Import Tactic.
+
 From Cij Require Import Ops ROps StaticModel.
 Import ListNotations.
 Local Open Scope R_scope.
@@ -236,11 +236,11 @@ Qed.
 
 (** ** units *)
 Lemma s_bohr3_bounds : 0.14818471 < @s_bohr3 R _ < 0.14818472.
-Proof. unfold s_bohr3, s_bohr_A, ofQ'. rops. split; interval with (i_prec 100). Qed.
+Proof. unfold s_bohr3, s_bohr_A, ofQ'. rops. split; lra. Qed.
 Lemma s_gpa_factor_bounds : 14710.5078 < @s_gpa_factor R _ < 14710.5079.
-Proof. unfold s_gpa_factor, s_Ry_eV, s_e_1e19, s_bohr3, s_bohr_A, ofQ'. rops. split; interval with (i_prec 100). Qed.
+Proof. unfold s_gpa_factor, s_Ry_eV, s_e_1e19, s_bohr3, s_bohr_A, ofQ'. rops. split; lra. Qed.
 Lemma s_gcm3_factor_bounds : 11.205872 < @s_gcm3_factor R _ < 11.205874.
-Proof. unfold s_gcm3_factor, s_NA_1e23, s_bohr3, s_bohr_A, ofQ'. rops. split; interval with (i_prec 100). Qed.
+Proof. unfold s_gcm3_factor, s_NA_1e23, s_bohr3, s_bohr_A, ofQ'. rops. split; lra. Qed.
 
 Lemma unit_factors_l :
   (forall x : R, s_to_ang3 x = x * (0.529177210903 * 0.529177210903 * 0.529177210903)) /\
@@ -401,8 +401,9 @@ Lemma s_zip3_nth_l tab cm (vs fs ps : list R) k :
   (k < length vs)%nat -> length fs = length vs -> length ps = length vs ->
   nth k (s_zip3 tab cm None vs fs ps) [] = s_row tab cm None (s_nth k vs) (s_nth k fs) (s_nth k ps).
 Proof.
-  revert fs ps k. induction vs as [|v vs IH]; intros [|f fs] [|p ps] k Hk Hf Hp; cbn in *; try lia.
-  destruct k; [reflexivity|]. apply IH; lia.
+  revert fs ps k.
+  induction vs as [|v vs IH]; intros [|f fs] [|p ps] k Hk Hf Hp; cbn [length] in *; try lia.
+  cbn [s_zip3]. destruct k; [reflexivity|]. cbn [nth]. unfold s_nth in *. cbn [nth]. apply IH; lia.
 Qed.
 
 Lemma sqrt_sq_mul (rho x : R) : 0 < rho -> 0 <= x -> rho * (sqrt (x / rho) * 1) ^ 2 = x.
@@ -414,11 +415,12 @@ Qed.
 
 Lemma vrh_rows_l (c s : list (list R)) (rho : R) :
   0 < rho ->
-  let e := s_el c in let t := s_el s in
-  let KV := (e 1 1 + e 2 2 + e 3 3 + 2 * (e 1 2 + e 2 3 + e 1 3))%nat / 9 in
-  let KR := 1 / (t 1 1 + t 2 2 + t 3 3 + 2 * (t 1 2 + t 2 3 + t 1 3))%nat in
-  let GV := ((e 1 1 + e 2 2 + e 3 3) - (e 1 2 + e 2 3 + e 1 3) + 3 * (e 4 4 + e 5 5 + e 6 6))%nat / 15 in
-  let GR := 15 / (4 * (t 1 1 + t 2 2 + t 3 3) - 4 * (t 1 2 + t 2 3 + t 1 3) + 3 * (t 4 4 + t 5 5 + t 6 6))%nat in
+  let KV := (s_el c 1 1 + s_el c 2 2 + s_el c 3 3 + 2 * (s_el c 1 2 + s_el c 2 3 + s_el c 1 3)) / 9 in
+  let KR := 1 / (s_el s 1 1 + s_el s 2 2 + s_el s 3 3 + 2 * (s_el s 1 2 + s_el s 2 3 + s_el s 1 3)) in
+  let GV := ((s_el c 1 1 + s_el c 2 2 + s_el c 3 3) - (s_el c 1 2 + s_el c 2 3 + s_el c 1 3)
+             + 3 * (s_el c 4 4 + s_el c 5 5 + s_el c 6 6)) / 15 in
+  let GR := 15 / (4 * (s_el s 1 1 + s_el s 2 2 + s_el s 3 3) - 4 * (s_el s 1 2 + s_el s 2 3 + s_el s 1 3)
+                  + 3 * (s_el s 4 4 + s_el s 5 5 + s_el s 6 6)) in
   let K := (KV + KR) / 2 in let G := (GV + GR) / 2 in
   exists vp vs vphi,
     s_vrh_row c s rho = [KV; KR; K; GV; GR; G; vp; vs; vphi] /\
@@ -426,10 +428,155 @@ Lemma vrh_rows_l (c s : list (list R)) (rho : R) :
     (0 <= G -> rho * vs ^ 2 = G) /\
     (0 <= K + 4 / 3 * G -> rho * vp ^ 2 = K + 4 / 3 * G).
 Proof.
-  intros Hr e t KV KR GV GR K G.
+  intros Hr KV KR GV GR K G.
   exists (s_vp K G rho), (s_vs G rho), (s_vphi K rho). split; [|split; [|split]].
   - unfold s_vrh_row, s_bmV, s_bmR, s_GV, s_GR, s_avg, two, three. rops. reflexivity.
   - intros HK. unfold s_vphi, s_to_kms. rops. apply sqrt_sq_mul; assumption.
   - intros HG. unfold s_vs, s_to_kms. rops. apply sqrt_sq_mul; assumption.
   - intros HP. unfold s_vp, s_to_kms, three. rops. apply sqrt_sq_mul; assumption.
+Qed.
+
+(* ------------------------------------------------------------------------------------ *)
+(** * non-vacuity of the determinant hypothesis: distinct positive volumes have distinct strains *)
+Lemma s_strain_inj (v0 v w : R) : 0 < v0 -> 0 < v -> 0 < w -> s_strain v0 v = s_strain v0 w -> v = w.
+Proof.
+  intros H0 Hv Hw H. unfold s_strain, s_pow23, two, ofQ' in H. rops.
+  assert (Pv : 0 < v0 / v) by (apply Rdiv_lt_0_compat; assumption).
+  assert (Pw : 0 < v0 / w) by (apply Rdiv_lt_0_compat; assumption).
+  assert (E : exp (2 / 3 * ln (v0 / v)) = exp (2 / 3 * ln (v0 / w))) by lra.
+  apply exp_inv in E. assert (L : ln (v0 / v) = ln (v0 / w)) by lra.
+  apply ln_inv in L; try assumption.
+  assert (Q : v0 * w = v0 * v).
+  { apply (f_equal (fun z => z * v * w)) in L. field_simplify in L; lra. }
+  apply Rmult_eq_reg_l in Q; lra.
+Qed.
+
+Lemma fit2_exact_three_l (v0 v1 v2 c0 c1 c2 v : R) :
+  0 < v0 -> 0 < v1 -> 0 < v2 -> v0 <> v1 -> v0 <> v2 -> v1 <> v2 ->
+  let vols := [v0; v1; v2] in
+  let ys := map (fun w => s_poly (c0, c1, c2) (s_strain v0 w)) vols in
+  s_fit2 vols ys v = s_poly (c0, c1, c2) (s_strain v0 v).
+Proof.
+  intros P0 P1 P2 N01 N02 N12 vols ys.
+  apply (fit2_exact_l vols c0 c1 c2 v).
+  change (s_nth 0 vols) with v0. unfold s_strains, vols. cbn [map].
+  apply s_gram_det_three_distinct; intros E; apply s_strain_inj in E; auto.
+Qed.
+
+(* ------------------------------------------------------------------------------------ *)
+(** * the Gram determinant is positive as soon as three strains are pairwise distinct
+      (D = sum over triples of squared Vandermonde determinants, proved through the rank-one
+      update identities  D(x::xs) = D(xs) + E(x;xs),  E(x;y::ys) = E(x;ys) + T(x,y;ys)) *)
+Definition P0 (xs : list R) : R := sum (map (fun _ => 1) xs).
+Definition P1 (xs : list R) : R := sum xs.
+Definition P2 (xs : list R) : R := sum (map (fun x => x * x) xs).
+Definition P3 (xs : list R) : R := sum (map (fun x => x * (x * x)) xs).
+Definition P4 (xs : list R) : R := sum (map (fun x => x * x * (x * x)) xs).
+Definition Dp (a0 a1 a2 a3 a4 : R) : R :=
+  a0 * (a2 * a4 - a3 * a3) - a1 * (a1 * a4 - a3 * a2) + a2 * (a1 * a3 - a2 * a2).
+Definition Ep (x a0 a1 a2 a3 a4 : R) : R :=
+  (a2 * a4 - a3 * a3) + 2 * (a2 * a3 - a1 * a4) * x + (2 * (a1 * a3 - a2 * a2) + (a0 * a4 - a2 * a2)) * x ^ 2
+  + 2 * (a1 * a2 - a0 * a3) * x ^ 3 + (a0 * a2 - a1 * a1) * x ^ 4.
+Definition Tp (x y a0 a1 a2 a3 a4 : R) : R :=
+  (y - x) ^ 2 * (a4 - 2 * (x + y) * a3 + ((x + y) ^ 2 + 2 * x * y) * a2 - 2 * x * y * (x + y) * a1 + x ^ 2 * y ^ 2 * a0).
+Definition Tsum (x y : R) (zs : list R) : R := sum (map (fun z => ((y - x) * (z - x) * (z - y)) ^ 2) zs).
+
+Lemma s_gram_det_P (xs ys : list R) :
+  s_gram_det (s_mom xs ys) = Dp (P0 xs) (P1 xs) (P2 xs) (P3 xs) (P4 xs).
+Proof. unfold s_gram_det, s_det3, s_mom, Dp, P0, P1, P2, P3, P4, s_sq. cbn [m0 m1 m2 m3 m4]. rops. reflexivity. Qed.
+
+Lemma P_cons (x : R) xs :
+  P0 (x :: xs) = 1 + P0 xs /\ P1 (x :: xs) = x + P1 xs /\ P2 (x :: xs) = x * x + P2 xs /\
+  P3 (x :: xs) = x * (x * x) + P3 xs /\ P4 (x :: xs) = x * x * (x * x) + P4 xs.
+Proof. unfold P0, P1, P2, P3, P4. cbn [map sum]. rops. repeat split; reflexivity. Qed.
+Lemma P_nil : P0 [] = 0 /\ P1 [] = 0 /\ P2 [] = 0 /\ P3 [] = 0 /\ P4 [] = 0.
+Proof. unfold P0, P1, P2, P3, P4. cbn. rops. repeat split; reflexivity. Qed.
+
+Lemma Tsum_poly x y zs : Tsum x y zs = Tp x y (P0 zs) (P1 zs) (P2 zs) (P3 zs) (P4 zs).
+Proof.
+  induction zs as [|z zs IH].
+  - destruct P_nil as (-> & -> & -> & -> & ->). unfold Tsum, Tp. cbn. rops. ring.
+  - destruct (P_cons z zs) as (-> & -> & -> & -> & ->).
+    unfold Tsum in *. cbn [map sum]. rops. rewrite IH. unfold Tp. ring.
+Qed.
+Lemma Tsum_nonneg x y zs : 0 <= Tsum x y zs.
+Proof.
+  unfold Tsum. induction zs as [|z zs IH]; cbn [map sum]; rops; [lra|].
+  pose proof (pow2_ge_0 ((y - x) * (z - x) * (z - y))). lra.
+Qed.
+Lemma Tsum_pos x y zs c : x <> y -> In c zs -> c <> x -> c <> y -> 0 < Tsum x y zs.
+Proof.
+  intros Hxy Hin Hcx Hcy. induction zs as [|z zs IH]; [contradiction|].
+  pose proof (Tsum_nonneg x y zs) as Hn.
+  unfold Tsum in *. cbn [map sum]. rops.
+  pose proof (pow2_ge_0 ((y - x) * (z - x) * (z - y))) as Hs.
+  destruct Hin as [->|Hin]; [|specialize (IH Hin); lra].
+  assert (0 < ((y - x) * (c - x) * (c - y)) ^ 2); [|lra].
+  apply pow2_gt_0. repeat apply Rmult_integral_contrapositive_currified; lra.
+Qed.
+
+Definition Esum (x : R) (ys : list R) : R := Ep x (P0 ys) (P1 ys) (P2 ys) (P3 ys) (P4 ys).
+Lemma Esum_cons x y ys : Esum x (y :: ys) = Esum x ys + Tsum x y ys.
+Proof.
+  rewrite Tsum_poly. unfold Esum. destruct (P_cons y ys) as (-> & -> & -> & -> & ->).
+  unfold Ep, Tp. ring.
+Qed.
+Lemma Esum_nonneg x ys : 0 <= Esum x ys.
+Proof.
+  induction ys as [|y ys IH].
+  - unfold Esum. destruct P_nil as (-> & -> & -> & -> & ->). unfold Ep. lra.
+  - rewrite Esum_cons. pose proof (Tsum_nonneg x y ys). lra.
+Qed.
+Lemma Esum_pos x ys b c : In b ys -> In c ys -> b <> c -> b <> x -> c <> x -> 0 < Esum x ys.
+Proof.
+  intros Hb Hc Hbc Hbx Hcx. induction ys as [|y ys IH]; [contradiction|].
+  rewrite Esum_cons. pose proof (Esum_nonneg x ys). pose proof (Tsum_nonneg x y ys).
+  destruct Hb as [->|Hb], Hc as [->|Hc].
+  - contradiction.
+  - assert (0 < Tsum x b ys) by (apply (Tsum_pos x b ys c); auto). lra.
+  - assert (0 < Tsum x c ys) by (apply (Tsum_pos x c ys b); auto). lra.
+  - specialize (IH Hb Hc). lra.
+Qed.
+
+Definition Dsum (xs : list R) : R := Dp (P0 xs) (P1 xs) (P2 xs) (P3 xs) (P4 xs).
+Lemma Dsum_cons x xs : Dsum (x :: xs) = Dsum xs + Esum x xs.
+Proof.
+  unfold Dsum, Esum. destruct (P_cons x xs) as (-> & -> & -> & -> & ->). unfold Dp, Ep. ring.
+Qed.
+Lemma Dsum_nonneg xs : 0 <= Dsum xs.
+Proof.
+  induction xs as [|x xs IH].
+  - unfold Dsum. destruct P_nil as (-> & -> & -> & -> & ->). unfold Dp. lra.
+  - rewrite Dsum_cons. pose proof (Esum_nonneg x xs). lra.
+Qed.
+Lemma Dsum_pos xs a b c :
+  In a xs -> In b xs -> In c xs -> a <> b -> a <> c -> b <> c -> 0 < Dsum xs.
+Proof.
+  intros Ha Hb Hc Hab Hac Hbc. induction xs as [|x xs IH]; [contradiction|].
+  rewrite Dsum_cons. pose proof (Dsum_nonneg xs). pose proof (Esum_nonneg x xs).
+  destruct Ha as [->|Ha], Hb as [->|Hb], Hc as [->|Hc]; try contradiction.
+  - assert (0 < Esum a xs) by (apply (Esum_pos a xs b c); auto). lra.
+  - assert (0 < Esum b xs) by (apply (Esum_pos b xs a c); auto). lra.
+  - assert (0 < Esum c xs) by (apply (Esum_pos c xs a b); auto). lra.
+  - specialize (IH Ha Hb Hc). lra.
+Qed.
+
+Lemma s_gram_det_pos (xs ys : list R) a b c :
+  In a xs -> In b xs -> In c xs -> a <> b -> a <> c -> b <> c -> 0 < s_gram_det (s_mom xs ys).
+Proof. intros. rewrite s_gram_det_P. apply (Dsum_pos xs a b c); assumption. Qed.
+
+(** [fit2_exact_distinct]: at least three pairwise distinct positive volumes in the table *)
+Lemma fit2_exact_distinct_l (vols : list R) (c0 c1 c2 v a b c : R) :
+  let v0 := s_nth 0 vols in
+  let ys := map (fun w => s_poly (c0, c1, c2) (s_strain v0 w)) vols in
+  0 < v0 -> In a vols -> In b vols -> In c vols -> 0 < a -> 0 < b -> 0 < c ->
+  a <> b -> a <> c -> b <> c ->
+  s_fit2 vols ys v = s_poly (c0, c1, c2) (s_strain v0 v).
+Proof.
+  intros v0 ys H0 Ia Ib Ic Pa Pb Pc Nab Nac Nbc.
+  apply (fit2_exact_l vols c0 c1 c2 v). fold v0.
+  apply Rgt_not_eq, Rlt_gt.
+  apply (s_gram_det_pos _ _ (s_strain v0 a) (s_strain v0 b) (s_strain v0 c));
+    try (unfold s_strains; apply in_map; assumption);
+    intros E; apply s_strain_inj in E; auto.
 Qed.
